@@ -266,7 +266,8 @@ func (e *evDouble) OnContextAugment(chid datatransfer.ChannelID) func(context.Co
 // ----- graphsync double -----
 type gsDouble struct {
 	*testharness.FakeGraphSync
-	r *trRig
+	r      *trRig
+	stores map[string]bool // registered persistence options (as real graphsync keeps them)
 }
 
 func extMap(exts []graphsync.ExtensionData) map[graphsync.ExtensionName]datamodel.Node {
@@ -376,11 +377,28 @@ func (g *gsDouble) storeChid(name string) chidTok {
 	nr := &nodeRig{tids: &tidTable{toTok: map[uint64]uint64{}, toReal: map[uint64]uint64{}}}
 	return nr.tagChid(strings.TrimPrefix(name, "data-transfer-"))
 }
+
+// graphsync keeps a registry of persistence options: a name can be registered once
 func (g *gsDouble) RegisterPersistenceOption(name string, lsys ipld.LinkSystem) error {
-	g.record(gsCmd{Kind: "GRegisterStore", K: g.storeChid(name)})
+	g.r.mu.Lock()
+	if g.stores == nil {
+		g.stores = map[string]bool{}
+	}
+	dup := g.stores[name]
+	if !dup {
+		g.stores[name] = true
+	}
+	g.r.cmds = append(g.r.cmds, gsCmd{Kind: "GRegisterStore", K: g.storeChid(name), OK: !dup})
+	g.r.mu.Unlock()
+	if dup {
+		return errors.New("persistence option already registered")
+	}
 	return nil
 }
 func (g *gsDouble) UnregisterPersistenceOption(name string) error {
+	g.r.mu.Lock()
+	delete(g.stores, name)
+	g.r.mu.Unlock()
 	g.record(gsCmd{Kind: "GUnregisterStore", K: g.storeChid(name)})
 	return nil
 }
